@@ -63,7 +63,7 @@ def _check_main(run, P):
     run.rule("C11.locals", "generated temporaries are function locals", minimum=3)
     run.rule("C11.phase", "next_phase is advanced before the phase body in both back "
              "ends (shared with C01.step)", minimum=2)
-    _finally_filter(run, P)
+    run.do(_finally_filter, run, P)
     from . import c04, c01
     from .c01 import _alias
     _alias(run, "C04.reset", "C11.reset",
@@ -74,18 +74,18 @@ def _check_main(run, P):
         run.rule_docs.setdefault(r_, "")
         run.minimum.setdefault(r_, 0)
     n0_ = len(run.obs)
-    c13._storage(run, P)
+    run.do(c13._storage, run, P)
     for o_ in run.obs[n0_:]:
         if o_.rule in ("C13.storage", "C01.persist"):
             o_.rule = "C11.filter"
     for r_ in ("C13.storage", "C01.persist"):
         run.rule_docs.pop(r_, None)
         run.minimum.pop(r_, None)
-    _transparent(run, P)
-    _atomic(run, P)
-    _confined(run, P)
-    _order(run, P)
-    _locals(run, P)
+    run.do(_transparent, run, P)
+    run.do(_atomic, run, P)
+    run.do(_confined, run, P)
+    run.do(_order, run, P)
+    run.do(_locals, run, P)
     _alias(run, "C01.step", "C11.phase", lambda: c01._step(run, P))
 
 
